@@ -176,10 +176,30 @@ def check_props_file(prop: Prop) -> tuple[bool, str, list[str]]:
 STMT = re.compile(r"^\s*(Theorem|Lemma|Corollary|Example|Fact|Proposition|Remark)\s+(\w+)", re.M)
 
 
+REQ = re.compile(r"From\s+Asynkit\s+Require\s+(?:Import|Export)\s+([^.]*(?:\.[A-Za-z_][\w.]*)*[^.]*)\.\s", re.S)
+
+
+def dep_closure(start: list[str]) -> list[str]:
+    """the .v files (relative to coq/) that the given files depend on, transitively, within this development"""
+    seen, todo = [], list(start)
+    while todo:
+        f = todo.pop()
+        if f in seen or not os.path.exists(os.path.join(COQ, f)):
+            continue
+        seen.append(f)
+        src = strip_comments(open(os.path.join(COQ, f)).read())
+        for m in re.finditer(r"From\s+Asynkit\s+Require\s+(?:Import|Export)\s+((?:[A-Za-z_][\w]*(?:\.[A-Za-z_][\w]*)*\s*)+)\.", src):
+            for mod in m.group(1).split():
+                todo.append("theories/" + mod.replace(".", "/") + ".v")
+    return seen
+
+
 def count_obligations(prop: Prop) -> tuple[int, int, list[str]]:
     n = d = 0
     names = []
-    for f in prop.theory_files + [prop.props_v]:
+    files = dep_closure([prop.props_v] + prop.theory_files)
+    files = [f for f in files if f != prop.props_v]
+    for f in files + [prop.props_v]:
         p = os.path.join(COQ, f)
         if not os.path.exists(p):
             continue
